@@ -640,7 +640,6 @@ Proof.
         destruct (N.le_gt_cases n id) as [L|L].
         -- eapply truncate_keeps_readable; eauto. eapply inv_txs; eauto.
         -- (* also covered: state unchanged or only lower ids affected *)
-           assert (st' = st \/ True) by auto.
            unfold do_truncate in T. rewrite He in T.
            destruct (back_walk (c_maxio c) (s_txs st) (N.to_nat n) []) as [t1|e|].
            ++ destruct (front_walk (s_txs st) n (N.to_nat (committed st + 1 - n)) t1) as [t2|e|].
